@@ -267,6 +267,32 @@ example :
     (run .fixed (reached 0 1 2 0 4294967294 [.post [5, 6, 7, 8]]) (List.replicate 4 .reap)).2 =
       [.cqe 5, .cqe 6, .cqe 7, .cqe 8] := by decide
 
+/-- ROOM (round 8).  What the lazy slot release costs, exactly: on every reachable state the kernel can post
+`cq_entries − (posted − reaped) − (1 if a reference is outstanding)` further completions and not one more — the
+application's held entry keeps ONE slot from the kernel and nothing else does; the stamps posted are the first
+that many offered, appended in order. -/
+theorem cq_post_room {k kc c cc : Nat} (p : Params k kc c cc) (flags : Nat) (ops : List Op) (vs : List Nat) :
+    let s := reached flags k kc c cc ops
+    (step .fixed s (.post vs)).2 =
+      .posted (min vs.length (2 ^ kc - ((s.posted.length - s.reaped.length) + if s.relPending then 1 else 0))) ∧
+    ∀ n, (step .fixed s (.post vs)).2 = .posted n →
+      (step .fixed s (.post vs)).1.posted.map (·.val) = s.posted.map (·.val) ++ vs.take n := by
+  obtain ⟨inq, unpub, cinq, hold, h⟩ := reached_inv p flags ops
+  generalize reached flags k kc c cc ops = s at *
+  obtain ⟨c1, c2⟩ := post_count vs h
+  have hn : s.posted.length - s.reaped.length = cinq.length := by
+    rw [h.posted_eq, List.length_append]; omega
+  simp only [step_post, hn]
+  refine ⟨?_, ?_⟩
+  · rw [c1, h.hold_len, Nat.add_comm]
+  · intro n hnn
+    cases hnn
+    exact c2
+
+/-- non-vacuity: ring of 4, one reference outstanding, one unreaped: room for 2 of the 5 offered -/
+example : (step .fixed (reached 0 1 2 0 4294967295 [.post [1, 2], .reap]) (.post [3, 4, 5, 6, 7])).2 = .posted 2 := by
+  decide
+
 /-- `needs_wakeup` answers exactly whether the kernel set IORING_SQ_NEED_WAKEUP, whatever the other bits of the SQ
 flags word (CQ overflow, task-run) are: with it an application following the wake-up protocol of an SQPOLL ring
 wakes the idle kernel thread, so that what it flushed is consumed at all -/
